@@ -280,6 +280,8 @@ class Interp:
             return True
         if c is False or (z3.is_expr(c) and z3.is_false(c)):
             return False
+        if not getattr(self, "prune", True):
+            return True
         self.solver.push()
         for p in state.pc:
             self.solver.add(p)
@@ -474,6 +476,10 @@ class Interp:
             raise Unencodable("load of uninitialised %r" % (ref,))
         return self.project(state, base, ref.projs, frame=ref.frame)
 
+    def store(self, state, ref, val):
+        base = state.mem.get((ref.frame, ref.local))
+        state.mem[(ref.frame, ref.local)] = self.update(state, base, list(ref.projs), val, ref.frame)
+
     def read_place(self, state, fn, frame, place):
         local, projs = place
         key = (frame, local)
@@ -566,7 +572,16 @@ class Interp:
             return z3.IntVal(ord(ch))
         m = re.fullmatch(r"(-?[\d.]+(?:[eE][-+]?\d+)?)(f32|f64)", txt)
         if m:
-            return Opaque("float", (m.group(1), m.group(2)))
+            srt = z3.Float64() if m.group(2) == "f64" else z3.Float32()
+            return z3.FPVal(float(m.group(1)), srt)
+        m = re.fullmatch(r"core::f(32|64)::<impl f(32|64)>::([A-Z_]+)", txt)
+        if m:
+            import sys as _sys
+            srt = z3.Float64() if m.group(1) == "64" else z3.Float32()
+            table = {"EPSILON": _sys.float_info.epsilon if m.group(1) == "64" else 1.1920929e-07, "MAX": _sys.float_info.max,
+                     "MIN_POSITIVE": _sys.float_info.min, "INFINITY": float("inf"), "NEG_INFINITY": float("-inf")}
+            if m.group(3) in table:
+                return z3.FPVal(table[m.group(3)], srt)
         m = re.search(r"::promoted\[(\d+)\]$", txt)
         if m:
             cname = fn.name + "::promoted[%s]" % m.group(1)
@@ -636,6 +651,14 @@ class Interp:
 
     def binop(self, state, name, a, b, ty):
         rng = self.int_range(ty)
+        if z3.is_expr(a) and z3.is_fp(a):
+            rm = z3.RNE()
+            tbl = {"Add": lambda: z3.fpAdd(rm, a, b), "Sub": lambda: z3.fpSub(rm, a, b), "Mul": lambda: z3.fpMul(rm, a, b),
+                   "Div": lambda: z3.fpDiv(rm, a, b), "Lt": lambda: z3.fpLT(a, b), "Le": lambda: z3.fpLEQ(a, b),
+                   "Gt": lambda: z3.fpGT(a, b), "Ge": lambda: z3.fpGEQ(a, b), "Eq": lambda: z3.fpEQ(a, b), "Ne": lambda: z3.Not(z3.fpEQ(a, b))}
+            if name in tbl:
+                return tbl[name]()
+            raise Unencodable("float binop " + name)
         isbool = z3.is_bool(a) if z3.is_expr(a) else isinstance(a, bool)
         if isinstance(a, (Agg, EnumV, Ref, Opaque)) or isinstance(b, (Agg, EnumV, Ref, Opaque)):
             if isinstance(a, EnumV) and isinstance(b, EnumV) and name in ("Eq", "Ne") and not a.payloads and not b.payloads:
@@ -850,7 +873,10 @@ class Interp:
                 raise Unencodable("block budget exhausted")
             v = visits.get(bbname, 0)
             if v >= self.unroll:
-                results.append(Outcome("exhausted", None, st, "loop bound %d reached at %s of %s" % (self.unroll, bbname, f.name)))
+                oc = Outcome("exhausted", None, st, "loop bound %d reached at %s of %s" % (self.unroll, bbname, f.name))
+                oc.frame = frame
+                oc.fn = f
+                results.append(oc)
                 continue
             visits = dict(visits)
             visits[bbname] = v + 1
